@@ -391,6 +391,39 @@ for c, o in zip(pending, outs):
                                        "true_z_o": z0, "impl_theta": impl["theta"], "impl_z_o": impl["z_o"],
                                        "model_theta": mod.get("theta"), "model_z_o": mod.get("z_o")}})
 
+# --- A'': element positions given as WHOLE numbers in an integer array (a layout typed without decimal points): the registered
+#          elements are at the true positions, which are not whole numbers
+for t_ in range(6 if Q else 40):
+    n_ = int(rng.integers(2, 7))
+    xs_i = np.sort(rng.choice(np.arange(-6, 13), size=n_, replace=False)).astype(np.int64)
+    coords_i = np.zeros((n_, 3), dtype=np.int64)
+    coords_i[:, 0] = xs_i
+    probe_i = arim.Probe(g.Points(coords_i), 1e6)
+    th_i = math.radians(float(rng.uniform(-40.0, 40.0)))
+    z_i = -(float(rng.uniform(2.5, 30.0)) + 13 * abs(math.sin(th_i)))
+    Pz_i = -math.sin(th_i) * xs_i + z_i
+    Px_i = math.cos(th_i) * xs_i
+    tx_i, rx_i = frame_layout(n_, "fmc")
+    ds_i = garbage(len(tx_i))
+    pe_i = tx_i == rx_i
+    ds_i[pe_i] = -Pz_i[tx_i[pe_i]]
+    impl_i = run_impl_move(probe_i, tx_i, rx_i, ds_i)
+    evaluations += 1
+    chk.count(A_locations_dtype="int64")
+    nontrivial.add(("pose-int", n_, tuple(int(v) for v in xs_i), round(th_i, 9)))
+    rep_i = {"fn": "move_probe_over_flat_surface", "locations_pcs": coords_i, "locations_dtype": "int64", "tx": tx_i, "rx": rx_i,
+             "distance_to_surface": ds_i, "true_theta": th_i, "true_z_o": z_i}
+    if impl_i["err"] is not None:
+        chk.violation("A:int-locations:rejects", f"registration of a probe whose element coordinates are stored as integers fails ({impl_i['err']})", rep_i)
+        break
+    if differ(impl_i["locs"][:, 2], Pz_i, 30.0) or differ(impl_i["locs"][:, 0], Px_i, 30.0) or differ(impl_i["locs_pcs"][:, 0], xs_i, 30.0) \
+            or differ(impl_i["z_o"], z_i, 30.0) or differ(impl_i["theta"], th_i, 1.0):
+        chk.violation("A:int-locations", "a probe whose element coordinates are stored as integers is not registered at the true pose "
+                      "(elements, PCS coordinates, standoff or tilt differ)",
+                      dict(rep_i, impl_locations=impl_i["locs"], true_x=Px_i, true_z=Pz_i, impl_locations_pcs=impl_i["locs_pcs"],
+                           impl_z_o=impl_i["z_o"], impl_theta=impl_i["theta"]))
+        break
+
 # --- A': error branches and malformed input --------------------------------------
 mal = []
 
